@@ -246,7 +246,10 @@ def impl_tweens(case):
     except Exception as e:
         return {'result': 'raised:' + type(e).__name__}
     del m.LOG[:]
-    Request.blank('/').get_response(app)
+    try:
+        Request.blank('/').get_response(app)
+    except Exception as e:           # a chain assembled in a wrong order may not even be callable
+        return {'result': 'raised-on-request:' + type(e).__name__}
     tr = []
     for ev in m.LOG:
         if ev[0] == 'core': tr.append(1000000)
@@ -352,9 +355,12 @@ def impl_tween_history(case):
     m = _tween_module()
     dn = lambda i: INGRESS if i == 0 else MAIN if i == 1 else (m.__name__ + '.' + name_of(i) if i < 9 else 'absent.' + name_of(i))
     out = []
-    config = Configurator()
-    config.add_view(lambda r: (m.LOG.append(('core',)), Response('ok'))[1], name='')
-    config.commit()
+    try:
+        config = Configurator()
+        config.add_view(lambda r: (m.LOG.append(('core',)), Response('ok'))[1], name='')
+        config.commit()
+    except Exception as e:           # the tree under test cannot even set a configurator up
+        return [{'result': 'raised-in-setup:' + type(e).__name__}]
     for ops in case['rounds']:
         try:
             for n, a, b, sa, sb in ops:
@@ -376,7 +382,10 @@ def impl_tween_history(case):
         except Exception as e:
             out.append({'result': 'raised:' + type(e).__name__}); break
         del m.LOG[:]
-        Request.blank('/').get_response(app)
+        try:
+            Request.blank('/').get_response(app)
+        except Exception as e:
+            out.append({'result': 'raised-on-request:' + type(e).__name__}); break
         tr = []
         for ev in m.LOG:
             if ev[0] == 'core': tr.append(1000000)
@@ -500,7 +509,10 @@ def impl_derivers(case, gen):
         return {'result': 'error:' + s[:80]}
     except Exception as e:
         return {'result': 'raised:' + type(e).__name__}
-    Request.blank('/').get_response(app)
+    try:
+        Request.blank('/').get_response(app)
+    except Exception as e:
+        return {'result': 'raised-on-request:' + type(e).__name__}
     order = [n for n, _ in config.registry.getUtility(IViewDerivers).sorted()]
     rev = {v: k + 20 for k, v in enumerate(names)}
     ids = [rev[n] if n in rev else nid(n) for n in order]
@@ -589,15 +601,32 @@ def check_deriver(case, mo, gen):
     return mism, viol, got
 
 
+# the documented default pipeline (docs/narr/hooks.rst "View Derivers"), stated here independently of the code; used as
+# the expected order, and as the model's input when the probes of extract/c18.py could not observe the chain (a tree
+# on which `Configurator()` itself fails): the checks then still run and report the failing input
+DOCUMENTED_ORDER = ['secured_view', 'csrf_view', 'owrapped_view', 'http_cached_view', 'decorated_view', 'rendered_view', 'mapped_view']
+DOCUMENTED_CHAIN = [('secured_view', 'INGRESS', 'VIEW'), ('owrapped_view', 'secured_view', 'VIEW'),
+                    ('http_cached_view', 'owrapped_view', 'VIEW'), ('decorated_view', 'http_cached_view', 'VIEW'),
+                    ('rendered_view', 'decorated_view', 'VIEW'), ('mapped_view', 'rendered_view', 'VIEW'),
+                    ('csrf_view', 'secured_view', 'owrapped_view')]
+
+
 def load_gen(ctx):
-    """facts extracted from the source by extract/c18.py (also compiled into Gen/C18.lean)"""
+    """facts observed on the tree under test by extract/c18.py (also compiled into Gen/C18.lean)"""
     import importlib.util, os
     p = os.path.join(ctx.verif, 'extract', 'c18.py')
     spec = importlib.util.spec_from_file_location('extract_c18_h', p)
     m = importlib.util.module_from_spec(spec); spec.loader.exec_module(m)
     f = m.facts(ctx.src)
-    # the documented default pipeline (docs/narr/hooks.rst "View Derivers"), stated here independently of the code
-    f['expected_default_order'] = ['secured_view', 'csrf_view', 'owrapped_view', 'http_cached_view', 'decorated_view', 'rendered_view', 'mapped_view']
+    names = f.get('deriver_names') or []
+    known = set(names) | {'INGRESS', 'VIEW'}
+    usable = (names and 'unknown' not in names and set(DOCUMENTED_ORDER) <= set(names)
+              and all(d.get('under') in known and d.get('over') in known for d in f['default_derivers']))
+    if not usable:
+        f['probe_unusable'] = True
+        f['default_derivers'] = [{'name': n, 'under': u, 'over': o} for n, u, o in DOCUMENTED_CHAIN]
+        f['deriver_names'] = [n for n, _, _ in DOCUMENTED_CHAIN]
+    f['expected_default_order'] = list(DOCUMENTED_ORDER)
     return f
 
 
